@@ -557,3 +557,10 @@ T('C07', 'memoised-lru-cache', [
     (CDP, "def cdp_rho(eps,delta):", "@functools.lru_cache(maxsize=None)\ndef cdp_rho(eps,delta):")])
 K('C06', 'mst-rows-from-record-count', [(MST, "    synth = est.synthetic_data()\n", "    synth = est.synthetic_data(rows=data.df.shape[0])\n")], 'public-sink')
 T('C06', 'mst-rows-default-explicit', [(MST, "    synth = est.synthetic_data()\n", "    synth = est.synthetic_data(rows=None)\n")])
+JT = 'src/mbi/junction_tree.py'
+_MERGE = ("        def overlap(c1, c2):\n            i = j = n = 0\n            while i < len(c1) and j < len(c2):\n                if c1[i] == c2[j]:\n"
+          "                    n, i, j = n+1, i+1, j+1\n                elif c1[i] < c2[j]:\n                    i += 1\n                else:\n                    j += 1\n            return n\n")
+K('C12', 'weight-merge-pass-on-domain-order', [(JT, "        complete = nx.Graph()\n", _MERGE + "        complete = nx.Graph()\n"),
+                                               (JT, "            wgt = len(set(c1) & set(c2))\n", "            wgt = overlap(c1, c2)\n")], 'tree-connected')
+T('C12', 'weight-merge-pass-on-sorted-copies', [(JT, "        complete = nx.Graph()\n", _MERGE.replace("            i = j = n = 0\n", "            c1, c2 = sorted(c1), sorted(c2)\n            i = j = n = 0\n") + "        complete = nx.Graph()\n"),
+                                                (JT, "            wgt = len(set(c1) & set(c2))\n", "            wgt = overlap(c1, c2)\n")])
